@@ -51,4 +51,28 @@ def c11(rec):
             for key in f0:
                 if key not in f1 and key[1] != v["creator"]:
                     out.append({"sig": {"prop": "C11", "kind": "foreign-file-deleted"}, "what": f"deleteFile by {v['creator']} removed a file owned by {key[1]}"})
+    elif m == "rns":
+        # a primary-name record is a resource of its account: only that account's own message moves it
+        (k, v), = rec["op"].items()
+        canon = dict(rec["pre"].get("canon") or [])
+        p0, p1 = dict(rec["pre"]["primary"]), dict(rec["post"]["primary"])
+        signer = v["creator"]
+        for a in set(p0) | set(p1):
+            if p0.get(a) != p1.get(a) and canon.get(a, a) != canon.get(signer, signer):
+                out.append({"sig": {"prop": "C11", "kind": "foreign-primary-name-touched", "op": k},
+                            "what": f"{k} signed by {signer} changed the primary name of {a}: {p0.get(a)} -> {p1.get(a)}"})
+    elif m == "notif":
+        (k, v), = rec["op"].items()
+        if k == "block":
+            import json as _j
+            signer = v["creator"]
+
+            def owner(key):
+                return key[0].get("s", {}).get("v", "") if key and isinstance(key[0], dict) else ""
+            s0 = {_j.dumps(x): (x, y) for x, y in rec["pre"]["store"]}
+            s1 = {_j.dumps(x): (x, y) for x, y in rec["post"]["store"]}
+            for kk in set(s0) | set(s1):
+                a, b = s0.get(kk), s1.get(kk)
+                if (a and a[1]) != (b and b[1]) and owner((a or b)[0]) != signer:
+                    out.append({"sig": {"prop": "C11", "kind": "foreign-block-list-touched"}, "what": f"blockSenders by {signer} changed an entry outside its own list: {kk[:90]}"})
     return out
